@@ -350,12 +350,79 @@ func (a *parserAnchors) predicateReads(f *ssa.Function, seen map[*ssa.Function]b
 	return ok
 }
 
+// literalArg: an argument that is a constant or a literal list of constants (also the empty variadic list).
+func literalArg(v ssa.Value) *aval {
+	switch x := v.(type) {
+	case *ssa.Const:
+		if x.Value == nil {
+			if _, isSlice := x.Type().Underlying().(*types.Slice); isSlice {
+				return &aval{isList: true}
+			}
+			return nil
+		}
+		return &aval{k: x.Value}
+	case *ssa.Slice:
+		al, ok := x.X.(*ssa.Alloc)
+		if !ok || x.Low != nil || x.High != nil {
+			return nil
+		}
+		at, ok := deref(al.Type()).Underlying().(*types.Array)
+		if !ok || at.Len() > 64 {
+			return nil
+		}
+		out := &aval{isList: true, list: make([]*aval, at.Len())}
+		for _, r := range *al.Referrers() {
+			switch y := r.(type) {
+			case *ssa.IndexAddr:
+				k, ok := y.Index.(*ssa.Const)
+				if !ok || k.Value == nil {
+					return nil
+				}
+				n, _ := constant.Int64Val(constant.ToInt(k.Value))
+				for _, r2 := range *y.Referrers() {
+					st, ok := r2.(*ssa.Store)
+					if !ok {
+						return nil
+					}
+					kv, ok := st.Val.(*ssa.Const)
+					if !ok || kv.Value == nil || n < 0 || n >= at.Len() || out.list[n] != nil {
+						return nil
+					}
+					out.list[n] = &aval{k: kv.Value}
+				}
+			case *ssa.Slice, *ssa.DebugRef:
+			default:
+				return nil
+			}
+		}
+		for _, e := range out.list {
+			if e == nil {
+				return nil
+			}
+		}
+		return out
+	}
+	return nil
+}
+
 // foldPredicate returns the alternative fact lists under which the pure predicate call yields want; nil when the
 // predicate does not fold.
 func (a *parserAnchors) foldPredicate(c *Ctx, call *ssa.Call, want bool, from *ssa.BasicBlock) [][]pathFact {
 	cal := call.Call.StaticCallee()
-	if cal == nil || cal.Signature.Recv() == nil || cal.Signature.Results().Len() != 1 || len(call.Call.Args) != 1 {
+	if cal == nil || cal.Signature.Recv() == nil || cal.Signature.Results().Len() != 1 || len(call.Call.Args) < 1 || len(call.Call.Args) != len(cal.Params) {
 		return nil
+	}
+	// arguments besides the receiver: constants and literal lists of constants (`p.peekIs(token.A, token.B)`)
+	argVals := map[ssa.Value]*aval{}
+	for i, av := range call.Call.Args {
+		if i == 0 {
+			continue
+		}
+		v := literalArg(av)
+		if v == nil {
+			return nil
+		}
+		argVals[cal.Params[i]] = v
 	}
 	if b, ok := cal.Signature.Results().At(0).Type().Underlying().(*types.Basic); !ok || b.Kind() != types.Bool {
 		return nil
@@ -415,6 +482,9 @@ func (a *parserAnchors) foldPredicate(c *Ctx, call *ssa.Call, want bool, from *s
 		})
 	}
 	scan(cal)
+	for _, v := range argVals {
+		scanVal(v)
+	}
 	tc := c.tokenConsts()
 	var types_ []int64
 	for k := range mention {
@@ -493,6 +563,9 @@ func (a *parserAnchors) foldPredicate(c *Ctx, call *ssa.Call, want bool, from *s
 		}
 		pf := &pFolder{c: c, state: st}
 		env := map[ssa.Value]*aval{cal.Params[0]: {tag: "recv"}}
+		for pv, v := range argVals {
+			env[pv] = v
+		}
 		rv, ok := pf.run(cal, env, 0)
 		if !ok || rv == nil || rv.k == nil || rv.k.Kind() != constant.Bool {
 			return nil
